@@ -18,7 +18,8 @@ Post-condition monitors on what the real code returns:
   object (default layout with pos=None: counts; explicit pos: full geometry; layouts: keys
   == current node set), so that anything remembered per object across calls is observed.
 * position dicts are handed over in key orders other than H.nodes, with extra keys and with
-  tuple / list / float64 / float32 / int values.
+  tuple / list / float64 / float32 / int values, and in degenerate geometric families (grid,
+  collinear, regular polygon, mirror pairs, coincident non-adjacent nodes, huge / tiny scale).
 
 Keys: "<function>|<trigger>|<clause>"; the trigger of a polygon clause says whether max_order
 truncates, the trigger of a layout clause is the node-count class.  `draw` only delegates to
@@ -55,7 +56,11 @@ ASSUMPTIONS = [
     "excluded labels: bool (True == 1 and False == 0 are the SAME dict key as the ints), two labels of one network that compare equal across types (0 and 0.0, "
     "np.int64(1) and 1: one node, not two), NaN (not equal to itself), None, tuples / frozensets and str mixed with non-str (add_edges_from cannot tell such "
     "labels from edge formats, DESIGN 1.4; convert_labels_to_integers and draw_simplices rebuild networks through it)",
-    "positions handed to draw functions have 2n pairwise distinct coordinates (min separation 0.01), so geometry identifies node IDs; points are matched with tolerance 1e-7",
+    "explicit positions come in 8 families fixed by idx: general position (2n pairwise distinct coordinates), integer grid, all points on one line (horizontal / vertical / "
+    "diagonal; centroids fall on members), regular polygon around a centre (optionally one key on the centre), mirror pairs through a centre, coincident positions of two "
+    "keys that share NO edge, magnitudes x 2**30 and x 2**-20; lines and polygons are compared as multisets of sets of POSITIONS (== sets of IDs whenever positions are "
+    "distinct); two members of one edge never get the same position (the expected vertex set would be ambiguous), so a polygon must have exactly its members' points; "
+    "points are matched after division by the family's scale with tolerance 1e-6",
     "hull=False only; node_labels / hyperedge_labels are not driven (the statement is about markers, lines and polygons)",
     "per-ID style containers are never empty: with no dyad (no polygon) to plot the dyad (edge) style falls back to a scalar",
     "max_order=0 is not driven (draw treats it as None, draw_hyperedges as 'no polygon'); max_order in {None, 1..max-1, max, max+2} where max = largest edge order of the network",
@@ -79,7 +84,7 @@ COLOR_STRS = ("red", "tab:blue", "#00aa55", "k", "orange", "purple")
 
 def plan(tier):
     if tier == "quick":
-        return {"draw": 170, "layout": 400, "sequence": 54}
+        return {"draw": 150, "layout": 360, "sequence": 54}
     return {"draw": 24000, "layout": 64000, "sequence": 8000}
 
 
@@ -134,7 +139,9 @@ def floors(tier):
     for o in ORDERS:
         f[f"pos-order:{o}"] = int(0.15 * (nl + nd))
     for v in VALUE_KINDS:
-        f[f"pos-values:{v}"] = int(0.08 * (nl + nd))
+        f[f"pos-values:{v}"] = int(0.06 * (nl + nd))
+    for fam in FAMILIES:  # fixed by idx: 1/8 of the draw cases and of the barycentre dicts each ("coincident" falls back when no pair qualifies)
+        f[f"pos-family:{fam}"] = int(0.08 * (nl + nd))
     for s in STYLES:
         f[f"style:{s}"] = int(2.5 * nd)
     for m in ("None", "<max", ">=max"):
@@ -143,7 +150,8 @@ def floors(tier):
         f[f"draw-labels:{k}"] = int(0.08 * nd)
         f[f"layout-labels:{k}"] = int(0.08 * nl)
         f[f"seq-labels:{k}"] = ns // 14
-    return f
+    # the numbers above are ~0.6-0.95 of what a run observes; every floor is set to half of that so that each keeps a >= 2x margin
+    return {k: max(1, v // 2) for k, v in f.items()}
 
 
 # ---------------------------------------------------------------------------------
@@ -440,7 +448,7 @@ def case_layout(mon, rng, idx):
     order, vkind = ORDERS[idx % 4], VALUE_KINDS[(idx // 4) % len(VALUE_KINDS)]
     extra = pick_extra(rng, nkind, nodes) if idx % 2 else ()
     if last is None or rng.random() < 0.6:
-        node_pos, _ = rand_pos(rng, nodes, mon, extra=extra, order=order, vkind=vkind)
+        node_pos, _ = rand_pos(rng, nodes, mon, extra=extra, order=order, vkind=vkind, family=FAMILIES[(idx // 2) % len(FAMILIES)], net=H)
         src = "random-pos"
     else:
         node_pos, src = reorder(rng, last, order, mon), "layout-pos"
@@ -465,7 +473,8 @@ def case_layout(mon, rng, idx):
         if snap.inv(D) != []:
             mon.note("discarded:invalid-input")
         else:
-            node_pos, _ = rand_pos(rng, list(D.nodes), mon, extra=pick_extra(rng, dkind, list(D.nodes)) if idx % 2 else (), order=ORDERS[(idx // 3) % 4])
+            node_pos, _ = rand_pos(rng, list(D.nodes), mon, extra=pick_extra(rng, dkind, list(D.nodes)) if idx % 2 else (), order=ORDERS[(idx // 3) % 4],
+                                   family=FAMILIES[(idx // 3) % len(FAMILIES)], net=D)
             mon.note("barycenter:DiHypergraph")
             check_barycenters(mon, D, node_pos, "random-pos", describe(D))
     mon.sample(f"layout: {desc}")
@@ -489,6 +498,7 @@ def check_barycenters(mon, net, node_pos, src, desc):
     if not (nonempty <= set(res) <= set(mem)):
         mon.fail(key + "keys-wrong", f"keys {sorted(res, key=repr)} but edges are {sorted(mem, key=repr)}", desc)
         return
+    mag = max([float(np.max(np.abs(np.asarray(v, dtype=float)))) for v in node_pos.values()] or [1.0]) or 1.0  # tolerance relative to the magnitudes
     for e in nonempty:
         want = np.mean([np.asarray(node_pos[n], dtype=float) for n in sorted(mem[e], key=repr)], axis=0)
         mon.note("barycenter:edges-checked")
@@ -496,7 +506,7 @@ def check_barycenters(mon, net, node_pos, src, desc):
             got = np.asarray(res[e], dtype=float)
         except Exception:
             got = None
-        if got is None or got.shape != (2,) or not np.allclose(got, want, rtol=1e-5, atol=1e-6):
+        if got is None or got.shape != (2,) or not np.allclose(got, want, rtol=1e-5, atol=1e-6 * mag):
             mon.fail(key + "not-the-mean-of-member-positions", f"edge {e!r} members {sorted(mem[e], key=repr)}: got {res[e]!r}, mean of member positions is {want!r}",
                      f"{desc}\nnode_pos={node_pos!r}")
             return
@@ -548,37 +558,108 @@ def _value(x, y, vkind):
     return np.array([x, y], dtype={"array-f64": np.float64, "array-f32": np.float32, "array-int": np.int64}[vkind])
 
 
-def rand_pos(rng, nodes, mon=None, extra=(), order=None, vkind=None, coords=None):
-    """Random positions with all coordinates pairwise distinct; returns (pos, value kind).
+FAMILIES = ("general", "grid", "collinear", "regular-polygon", "symmetric", "coincident", "huge", "tiny")
 
-    The dict's key order is `order` (not necessarily the order of H.nodes), it may hold `extra` keys that are no
-    nodes, and its values are tuples / lists / arrays of float64, float32 or int.  float32 and int kinds use
-    scales that are exact in that type, so a drawn point still identifies its node.
+
+def _base_xy(rng, keys, family, net):
+    """Coordinates before scaling, {key: (x, y)}; returns (xy, exact) - exact: all values are small integers."""
+    K = len(keys)
+    if family == "grid":  # few distinct x and y values: many corners on a common ray from an edge's centroid
+        side = int(np.ceil(np.sqrt(K))) + rng.randint(0, 1)
+        cells = rng.sample([(i, j) for i in range(side) for j in range(side)], K)
+        ox, oy = rng.randint(-3, 3), rng.randint(-3, 3)
+        return {k: (ox + i, oy + j) for k, (i, j) in zip(keys, cells)}, True
+    if family == "collinear":  # every edge has all its members on one line; centroids fall on members
+        ts = rng.sample(range(-8, 9), K)
+        dx, dy = rng.choice(((1, 0), (0, 1), (1, 1), (1, -1), (2, 1), (-1, 3)))
+        ox, oy = rng.randint(-5, 5), rng.randint(-5, 5)
+        return {k: (ox + t * dx, oy + t * dy) for k, t in zip(keys, ts)}, True
+    if family == "regular-polygon":  # equal angular gaps around the common centre, optionally one key at the centre
+        cx, cy = rng.randint(-4, 4), rng.randint(-4, 4)
+        ks = list(keys)
+        rng.shuffle(ks)
+        xy = {}
+        if K >= 4 and rng.random() < 0.5:
+            xy[ks.pop()] = (cx, cy)
+        m = len(ks)
+        R = rng.choice((1, 2, 5))
+        if m == 4:
+            pts, exact = [(R, R), (-R, R), (-R, -R), (R, -R)], True
+        else:
+            ph = rng.choice((0.0, 0.5, 0.25)) * np.pi
+            pts, exact = [(R * float(np.cos(ph + 2 * np.pi * i / m)), R * float(np.sin(ph + 2 * np.pi * i / m))) for i in range(m)], False
+        for k, (x, y) in zip(ks, pts):
+            xy[k] = (cx + x, cy + y)
+        return xy, exact
+    if family == "symmetric":  # pairs of keys mirror each other through a common centre; an odd key sits on it
+        cx, cy = rng.randint(-4, 4), rng.randint(-4, 4)
+        half = [(i, j) for i in range(0, 5) for j in range(-4, 5) if (i, j) > (0, 0)]
+        ds = rng.sample(half, (K + 1) // 2)
+        ks = list(keys)
+        rng.shuffle(ks)
+        xy = {}
+        for q, k in enumerate(ks):
+            d = ds[q // 2]
+            if q == K - 1 and K % 2:
+                xy[k] = (cx, cy)
+            else:
+                s = 1 if q % 2 == 0 else -1
+                xy[k] = (cx + s * d[0], cy + s * d[1])
+        return xy, True
+    vals = rng.sample(range(-60, 400), 2 * K)
+    xy = {k: (vals[2 * i], vals[2 * i + 1]) for i, k in enumerate(keys)}
+    if family == "coincident" and net is not None:
+        # two keys at exactly the same point, never two members of one edge (a polygon / line is identified by its
+        # set of positions, so coincident members of one edge would make the expected vertex set ambiguous)
+        mem = [set(m) for m in net.edges.members()]
+        pairs = [(u, v) for i, u in enumerate(keys) for v in keys[i + 1:] if not any(u in m and v in m for m in mem)]
+        if pairs:
+            for u, v in rng.sample(pairs, min(len(pairs), rng.randint(1, 2))):
+                xy[v] = xy[u]
+        else:
+            return xy, None  # no such pair: falls back to general position
+    return xy, True
+
+
+def rand_pos(rng, nodes, mon=None, extra=(), order=None, vkind=None, family="general", net=None):
+    """Positions for `nodes` (+ `extra` keys that are no nodes); returns (pos, unit).
+
+    family "general": all 2n coordinates pairwise distinct.  The other families are degenerate on purpose (integer
+    grid, all points on one line, regular polygon around a centre, mirror pairs, coincident positions of keys that
+    share no edge, huge / tiny magnitudes).  Except for "coincident", distinct keys still have distinct points.
+    The dict's key order is `order` (not necessarily the order of H.nodes); values are tuples / lists / arrays of
+    float64, float32 or int, with scales that are exact in that type.  `unit` is the scale: drawn points are matched
+    to positions after division by it.
     """
     keys = list(nodes) + [x for x in extra if x not in nodes]
     vkind = vkind or rng.choice(VALUE_KINDS)
     order = order or rng.choice(ORDERS)
-    vals = rng.sample(range(-60, 400), 2 * len(keys))
-    if vkind in ("array-int", "list-int"):
-        scale = 1
-    elif vkind == "array-f32":
-        scale = rng.choice((1.0, 0.5, 0.125))
+    xy, exact = _base_xy(rng, keys, family, net)
+    if exact is None:
+        family, exact = "general", True
+    ints = vkind in ("array-int", "list-int")
+    if family == "huge":
+        scale = 2**30
+    elif family == "tiny":
+        scale = 2.0**-20
+    elif family in ("general", "coincident"):
+        scale = 1 if ints else rng.choice((1.0, 0.5, 0.125)) if vkind == "array-f32" else rng.choice((1.0, 0.5, 0.125, 0.01, 3.7))
     else:
-        scale = rng.choice((1.0, 0.5, 0.125, 0.01, 3.7))
-    xy = {k: (vals[2 * i] * scale, vals[2 * i + 1] * scale) for i, k in enumerate(keys)}
-    pos = {k: _value(*xy[k], vkind) for k in _ordered(rng, keys, nodes, order)}
+        scale = rng.choice((1, 2, 3)) if ints else rng.choice((1.0, 0.5, 0.125, 3.0))
+    if (not exact or scale != int(scale)) and ints:
+        vkind = "list" if vkind == "list-int" else "array-f64"  # these coordinates are no integers
+    if not exact and vkind == "array-f32":
+        vkind = "array-f64"
+    pos = {k: _value(xy[k][0] * scale, xy[k][1] * scale, vkind) for k in _ordered(rng, keys, nodes, order)}
     if mon:
+        mon.note(f"pos-family:{family}")
         mon.note(f"pos-order:{order}")
         mon.note(f"pos-values:{vkind}")
         if len(keys) > len(nodes):
             mon.note("pos-extra-keys")
         if list(pos)[: len(nodes)] != list(nodes):
             mon.note("pos-key-order-differs-from-H.nodes")
-    return pos, vkind
-
-
-def _k(p):
-    return (round(float(p[0]), 7), round(float(p[1]), 7))
+    return pos, float(scale)
 
 
 def expected(net, mo):
@@ -720,11 +801,23 @@ class Geo:
     under `draw`, which only delegates to them.
     """
 
-    def __init__(self, mon, net, pos, desc, fn, trunc, failed):
+    def __init__(self, mon, net, pos, desc, fn, trunc, failed, unit=1.0):
         self.mon, self.net, self.pos, self.desc = mon, net, pos, desc
-        self.fn, self.trunc, self.failed = fn, trunc, failed
+        self.fn, self.trunc, self.failed, self.unit = fn, trunc, failed, unit
         self.nodes = list(net.nodes)
-        self.lut = {} if pos is None else {_k(p): v for v, p in pos.items()}
+        self.lut = {}  # point -> keys of pos at that point (more than one only in the "coincident" family)
+        for v, p in (pos or {}).items():
+            self.lut.setdefault(self.pk(p), []).append(v)
+
+    def pk(self, p):
+        return (round(float(p[0]) / self.unit, 6), round(float(p[1]) / self.unit, 6))
+
+    def where(self, members):
+        """The set of points of a set of nodes: lines and polygons are compared as sets of positions."""
+        return frozenset(self.pk(self.pos[n]) for n in members)
+
+    def names(self, counter):
+        return sorted(((sorted(("=".join(repr(x) for x in self.lut.get(k, ["?"])) for k in pts)), c) for pts, c in counter.items()), key=repr)
 
     def wit(self, call):
         return f"{call}\n{self.desc}\npos={self.pos!r}"
@@ -747,13 +840,14 @@ class Geo:
         self.fire("any", "return-structure-wrong", f"{self.fn} returned {res!r}", call)
         return None
 
-    def ids(self, pts):
+    def pts(self, arr):
+        """Point keys of drawn points; (None, point) when a point is no position of the dict."""
         out = []
-        for p in pts:
-            k = _k(p)
+        for p in arr:
+            k = self.pk(p)
             if k not in self.lut:
                 return None, p
-            out.append(self.lut[k])
+            out.append(k)
         return out, None
 
     def nodes_ok(self, coll, call):
@@ -768,10 +862,10 @@ class Geo:
         if self.pos is None:
             return True
         want = np.asarray([np.asarray(self.pos[v], dtype=float) for v in self.nodes])
-        if not np.allclose(off, want, rtol=0, atol=1e-7):
-            got, _ = self.ids(off)
+        if not np.allclose(off, want, rtol=0, atol=1e-6 * self.unit):
+            got, _ = self.pts(off)
             return self.fire("any", "markers-not-at-positions-in-node-order",
-                             f"markers correspond to nodes {got if got is not None else off.tolist()} but H.nodes is {self.nodes}", call)
+                             f"markers are at the positions of {[self.lut[k] for k in got] if got is not None else off.tolist()} but H.nodes is {self.nodes}", call)
         return True
 
     def lines_ok(self, coll, lines, call):
@@ -788,12 +882,15 @@ class Geo:
         for s in segs:
             if s.shape != (2, 2):
                 return self.fire("any", "line-multiset-wrong", f"a line with {s.shape[0]} points: {s.tolist()}", call)
-            ends, miss = self.ids(s)
+            ends, miss = self.pts(s)
             if ends is None:
                 return self.fire("any", "line-endpoint-not-a-node-position", f"endpoint {miss} is no node's position", call)
             got[frozenset(ends)] += 1
-        if got != lines:
-            return self.fire("any", "line-multiset-wrong", f"lines join {_fmt(got)} but the two-node edges are {_fmt(lines)}", call)
+        want = Counter()
+        for m, c in lines.items():
+            want[self.where(m)] += c
+        if got != want:
+            return self.fire("any", "line-multiset-wrong", f"lines join {self.names(got)} but the two-node edges are {_fmt(lines)}", call)
         return True
 
     def polys_ok(self, coll, polys, call):
@@ -806,12 +903,12 @@ class Geo:
         sizes = Counter()
         for p in paths:
             v = np.asarray(p.vertices, dtype=float)
-            if len(v) >= 2 and np.allclose(v[0], v[-1], rtol=0, atol=1e-12):
-                v = v[:-1]  # closing vertex of a closed polygon
+            if len(v) >= 2 and np.allclose(v[0], v[-1], rtol=0, atol=1e-9 * self.unit):
+                v = v[:-1]  # closing vertex of a closed polygon (members of one edge never coincide)
             sizes[len(v)] += 1
             if self.pos is None:
                 continue
-            vs, miss = self.ids(v)
+            vs, miss = self.pts(v)
             if vs is None:
                 return self.fire(self.trunc, "polygon-vertex-not-a-node-position", f"vertex {miss} is no node's position", call)
             got[frozenset(vs)] += 1
@@ -822,8 +919,11 @@ class Geo:
             if sizes != want_sizes:
                 return self.fire(self.trunc, "polygon-set-wrong", f"polygons with vertex counts {dict(sizes)} but expected {dict(want_sizes)}", call)
             return True
-        if got != polys:
-            return self.fire(self.trunc, "polygon-set-wrong", f"polygon vertex sets {_fmt(got)} but expected {_fmt(polys)}", call)
+        want = Counter()
+        for m, c in polys.items():
+            want[self.where(m)] += c
+        if got != want:
+            return self.fire(self.trunc, "polygon-set-wrong", f"polygon vertex sets are the positions of {self.names(got)} but expected the members {_fmt(polys)}", call)
         return True
 
 
@@ -847,8 +947,8 @@ def case_draw(mon, rng, idx):
         mon.note(f"draw-has:{x}")
     desc = describe(net)
     nodes = list(net.nodes)
-    pos, _ = rand_pos(rng, nodes, mon, extra=pick_extra(rng, nkind, nodes) if idx % 2 else (),
-                      order=ORDERS[(idx // 3) % 4], vkind=VALUE_KINDS[(idx // 12) % len(VALUE_KINDS)])
+    pos, unit = rand_pos(rng, nodes, mon, extra=pick_extra(rng, nkind, nodes) if idx % 2 else (), order=ORDERS[(idx // 3) % 4],
+                         vkind=VALUE_KINDS[(idx // 12) % len(VALUE_KINDS)], family=FAMILIES[idx % len(FAMILIES)], net=net)
     mon.note("draw:explicit-pos-variant")
     edge_fn = "draw_simplices" if is_sc else "draw_hyperedges"
     fig, ax = plt.subplots()
@@ -863,7 +963,7 @@ def case_draw(mon, rng, idx):
                 ax.clear()
                 if use_pos is None:
                     mon.note("draw:pos=None")
-                geo = Geo(mon, net, use_pos, desc, fn, trunc, failed)
+                geo = Geo(mon, net, use_pos, desc, fn, trunc, failed, unit)
                 kw = {}
                 reject_ok = False
                 if fn != "draw_nodes":
